@@ -335,6 +335,8 @@ def check_write(w, after, policy, now0, fail, bump):
             sig = None
             if name == "hclear" and reply == ":1" and not expired(policy, exp, (now0 + 300) * 10**9):
                 sig = SIG_HCLEAR
+            if t != "k" and ts != 0 and (t, k, ts) in before.el:
+                sig = SIG_VERSION      # the renewed generation number (= ts) is that of elements stored before
             if wr is not None and reply != wr and not (name == "setex" and reply == "-err") and not (name.endswith("expire") and reply == "-err"):
                 fail("dead", cid, "a write on an expired key must reply as on an absent key: got %s want %s" % (reply, wr), sig,
                      cmd=name, args=w["hexargs"], ts=ts - now0 * 10**9, expire_at=exp - now0)
